@@ -113,6 +113,8 @@ def run(ctx):
                 "0..136 distinct keys, int/float(incl. nan,inf,-0.0)/bool/None scalars, int64/float64 arrays "
                 "0-d..3-d incl. empty, non-ASCII keys/strings, str/bool/int/float/date/None details; "
                 "non-trivial = >=2 cells; every case: strict round trip on /repo in both flavours + "
+                "write sequences (2-3 triangles sharing Metadata, shifted pool indices, both orders, shared/distinct "
+                "objects, both flavours: round trip, layout, equality with a fresh interpreter's bytes) + "
                 "ser/parse correspondence in coqc; F9 probed with 137- and 400-key triangles")
     ctx.audit_tree([f for f in B.MY_COQ_FILES if (B.Path("/verif/coq") / f).exists()])
     ok_static, _ = B.prove_static_local(ctx, "Props/C05.v")
@@ -155,6 +157,28 @@ def run(ctx):
             records.append((wt, b, rb, variants))
             if i < 3 and wt:
                 ctx.sample({"summary": s, "bytes": len(b), "first_cell": wt[0]})
+
+        # ---- write sequences: several triangles written back to back in this process
+        n_seq = 6 if ctx.quick else 40
+        seqs = [B.gen_write_sequence(rng) for _ in range(n_seq)]
+        fresh_all = B.fresh_bytes([wt for sq in seqs for wt in sq])
+        pos = 0
+        n_seq_bad = 0
+        for sq in seqs:
+            fresh = fresh_all[pos:pos + len(sq)]
+            pos += len(sq)
+            bad = B.sequence_oracle(sq, scratch, fresh=fresh)
+            ctx.hist("write_sequence")
+            ctx.count(evaluations=8 * len(sq), traces=len(sq))
+            ctx.nontriv(("seq", repr(sq)))
+            if bad is not None:
+                n_seq_bad += 1
+                if n_seq_bad <= 2:
+                    ctx.violation("impl-violation", bad[0], {"sequence": sq, **bad[1]}, found_input=True)
+            for wt in sq:  # the model's ser must give each file of the sequence, too
+                tri = B.mk_triangle(wt)
+                b = B.impl_write(tri, scratch)
+                records.append((wt, b, B.impl_read(b, scratch), []))
 
         # ---- F9 probes (known finding): directed triangles with >= 137 distinct keys
         for nk in (137, 400):
@@ -317,6 +341,16 @@ def B_parse(out):
 def replay(ctx, data):
     scratch = B.Scratch(ctx.build)
     try:
+        if "sequence" in data:
+            sq = data["sequence"]
+            print(f"replaying a write sequence of {len(sq)} triangles on {REPO} (order {data.get('order')}, "
+                  f"shared objects {data.get('share')}, compressed {data.get('compress')})")
+            bad = B.sequence_oracle(sq, scratch, orders=[data["order"]] if "order" in data else None)
+            if bad is None:
+                print("every file of the sequence round-trips, is the layout of its triangle and equals a fresh write")
+                return 0
+            print("PROPERTY FAILS:", bad[0], bad[1])
+            return 1
         wt = data.get("wt")
         if wt is None:
             print("replay: no input recorded (obligation-level failure):", data.get("what"))
